@@ -28,8 +28,8 @@ PROP = dict(
     ],
     assumptions=[
         "confirmed crashes are start-up probes (fecorpus::GATES), run in a child process before the stream: D53 (stack overflow on "
-        "`fn f() { f }`), D54, D55, D56, D57 have been fixed and are regression inputs (a crash is a failing input again); F8 "
-        "(`array<>`), F9 (`PushNil(0); Pop` in the optimizer) and F10 (blanket `implement I for T`) have a fix pending: while such a "
+        "`fn f() { f }`), D54, D55, D56, D57 have been fixed and are regression inputs (a crash is a failing input again); D64 "
+        "(`array<>`), D65 (`PushNil(0); Pop` in the optimizer) and D66 (blanket `implement I for T`) have a fix pending: while such a "
         "probe still crashes, crashes at the site it reports are counted under its id and named in a note; once it stops crashing "
         "it gates nothing",
         "deep nesting is bounded at 200 levels and judged with a 64 MB stack on an opt-level-1 build",
@@ -44,7 +44,7 @@ PROP = dict(
                "survives or-expansion and wildcard specialisation. Item/statement parser, resolver and type checker are covered "
                "by the process-isolated crash search only.",
     level_note="partial by design: no model of parse_file's error recovery, resolve.rs or typecheck.rs; absence of crashes there is "
-               "searched, not proved. The search found five crashing inputs on the pinned tree (D53-D57), among them a complete "
+               "searched, not proved. The search found eight crashing inputs on the pinned tree (D53-D57, D64-D66), among them a complete "
                "one-line program that overflows the host stack.",
     technique="Lean 4 theorems assembled from the lexer / Pratt / pattern-matrix models' lemmas + process-isolated crash search "
               "over prefixes, mutations, garbage and deep nesting + lexer correspondence on every malformed text",
